@@ -54,6 +54,24 @@ def hosts(n):
     return names
 
 
+def endpoints(n):
+    """names q0 .. q<n-1> of further subscriber endpoints (scale scenarios), IPv4 and IPv6 alternating"""
+    names = []
+    for i in range(n):
+        name = "q%d" % i
+        if name not in EP:
+            if i % 2:
+                EP[name] = hdr.IPv6EndpointOption(ipaddress.IPv6Address("2001:db8:8::%x" % (i + 1)), hdr.L4Protocols.UDP, 45000)
+                ADDR[name] = ("2001:db8:8::%x" % (i + 1), 45000)
+            else:
+                EP[name] = hdr.IPv4EndpointOption(ipaddress.IPv4Address("10.8.%d.%d" % (i // 250, i % 250 + 1)), hdr.L4Protocols.UDP, 45000)
+                ADDR[name] = ("10.8.%d.%d" % (i // 250, i % 250 + 1), 45000)
+            RADDR[ADDR[name]] = name
+            RADDR_FULL[ADDR[name]] = name
+        names.append(name)
+    return names
+
+
 ANY16, ANY8, ANY32 = 0xFFFF, 0xFF, 0xFFFFFFFF
 
 # concrete services (sid, iid, maj, min)
